@@ -468,6 +468,8 @@ class PolyEval:
                 for d in kids(s):
                     if d.get("kind") != "VarDecl" or "id" not in d:
                         continue
+                    if d["id"] in getattr(self, "pinned", ()):
+                        continue                  # kept symbolic by the rule (e.g. a vector chosen by a branch)
                     init = [c for c in kids(d) if isinstance(c, dict) and c.get("kind")]
                     if not init:
                         continue
